@@ -85,6 +85,10 @@ func (l *URIParamsLst) Reset() {
 	for i := 0; i < l.PNo(); i++ {
 		l.Params[i].Reset()
 	}
+	if l.N < len(l.Params) {
+		// parameter in progress (suspended or failed parse)
+		l.Params[l.N].Reset()
+	}
 	t := l.Params
 	*l = URIParamsLst{}
 	l.Params = t
